@@ -10,7 +10,7 @@ usage: mutate.py [--lanes N] [--only id,id] [--tests] [--all-checks] [--patch fi
 import argparse, json, os, re, shutil, subprocess, sys, time
 from concurrent.futures import ThreadPoolExecutor
 
-VERIF = os.path.dirname(os.path.dirname(os.path.abspath(__file__)))
+VERIF = os.environ.get("RSV_MUTATE_VERIF") or os.path.dirname(os.path.dirname(os.path.abspath(__file__)))
 LANES = "/tmp/rsv-lanes"
 ENV = dict(os.environ, CARGO_NET_OFFLINE="true")
 
